@@ -95,10 +95,11 @@ PLAN = {
     "C06": dict(
         title="Objective functions return the documented loss and gradient",
         level="proof",
-        verus=["C06_objectives.rs"],
+        verus=["C06_objectives.rs", "C06_loss_folds.rs"],
         kani=True,
         native_checks=[("objective.derivative", "bounded native grid: for AE / MSE / BCE / KL the reported gradient against central difference quotients of the reported loss, both ranks")],
-        undecided_clauses=["loss folds over more than 3 elements (bounded structural harness); AE/MSE finiteness is stated for |a|,|p| <= 1e18 "
+        undecided_clauses=["the loss statement of every objective is proved for every length (units *.loss.fold); the GRADIENT's map over the elements (nested zips, both ranks) is "
+                           "covered by the closure units plus a bounded structural harness (3 elements); AE/MSE finiteness is stated for |a|,|p| <= 1e18 "
                            "(larger finite inputs overflow the exact result)"],
     ),
     "C07": dict(
@@ -293,14 +294,16 @@ MANIFEST_TEXT = {
     ),
     "C06": dict(
         category="proof",
-        technique="Verus formula contracts on the 21 loss/gradient closure bodies + Kani harnesses over the full in-domain f32 range for finiteness and clamping",
+        technique="Verus formula contracts on the 21 loss/gradient closure bodies and on the 7 whole loss statements (every length) + Kani harnesses over the full in-domain f32 range for finiteness and clamping",
         design_ref="DESIGN.md §5 C06",
         text="Verus proves for every element of every shape that the loss term and both rank copies of the gradient closure of all seven "
              "objectives compute the documented formula (gradient = textbook derivative for AE, MSE, BCE, KL). Kani decides, through the real "
              "Function::loss on singleton tensors of both ranks and for every in-domain f32 incl. exactly 0 and 1, that the loss is finite, the "
              "gradient has the prediction's shape and the clamped gradient is the unclamped one limited to the interval (complete over the "
-             "element domain, ln by contract). The fold over elements (sum, /n, sqrt, negation; flat == 3-D) is a bounded harness.",
-        note="F1 uninterpreted floats in Verus; F2 ln contract in Kani; derivative table is mathematics (F3); fold structure bounded to 3 elements.",
+             "element domain, ln by contract). Verus also proves the WHOLE loss statement of each objective for tensors of every length (units *.loss.fold, R53): the "
+             "documented per-element terms over the flattened target / prediction pairs, summed in index order, then the documented outer operation (mean, /n inside, "
+             "root of the mean, negation). The gradient's map over the elements (flat == 3-D) stays a bounded harness.",
+        note="F1 uninterpreted floats in Verus; F2 ln contract in Kani; derivative table is mathematics (F3); std's in-order float sum is an uninterpreted function of the term sequence (R27); gradient map structure bounded to 3 elements.",
     ),
     "C07": dict(
         category="proof",
